@@ -101,17 +101,44 @@ def gen(rng, tier):
             "streams": streams, "inspect": insp,
             "string_extras": {"pair": rng.random() < 0.3, "read_first": rng.random() < 0.5, "torn_then_reimport": rng.random() < 0.2,
                               "short_writes": rng.random() < 0.3, "checklines": rng.choice([0, 1, 10])},
-            "db_delete_at": db_delete_at, "gz_members": rng.choice([1, 1, 2, 3])}
+            "db_delete_at": db_delete_at, "gz_members": rng.choice([1, 1, 2, 3]),
+            # what real annotation files carry between their feature lines
+            "noise": rng.choice([None, None, {"directive": True, "comment": 2, "blank": 3, "tail_blank": True},
+                                 {"directive": False, "comment": 0, "blank": 2, "tail_blank": False},
+                                 {"directive": True, "comment": 1, "blank": 0, "tail_blank": True}])}
 
 
 def _d(case):
     return G.DEFAULT_GFF3 if case["fmt"] == "gff3" else G.DEFAULT_GTF
 
 
+def _noisy(text, noise):
+    """Directive / comment / blank lines between the feature lines of a text-form input (no feature is added)."""
+    if not noise or not text:
+        return text
+    out = ["##gff-version 3"] if noise.get("directive") else []
+    for i, ln in enumerate(text.rstrip("\n").split("\n")):  # not splitlines(): values may hold U+2028 etc.
+        if noise.get("comment") and i % (noise["comment"] + 1) == noise["comment"]:
+            out.append("# a comment line")
+        if noise.get("blank") and i % (noise["blank"] + 1) == noise["blank"]:
+            out.append("")
+        out.append(ln)
+    if noise.get("tail_blank"):
+        out += ["", "#end"]
+    return "\n".join(out) + "\n"
+
+
+TEXT_FORMS = ("path", "gz", "string", "existing")
+
+
 def _spec(case, form, name="in.gff"):
     if form == "gz":
-        return {"form": "gz", "text": G.render_text(case["feats"], _d(case)), "name": name, "members": case.get("gz_members", 1)}
-    return G.source_spec(None, case["feats"], form=form, d=_d(case), name=name)
+        return {"form": "gz", "text": _noisy(G.render_text(case["feats"], _d(case)), case.get("noise")), "name": name,
+                "members": case.get("gz_members", 1)}
+    sp = G.source_spec(None, case["feats"], form=form, d=_d(case), name=name)
+    if "text" in sp:
+        sp["text"] = _noisy(sp["text"], case.get("noise"))
+    return sp
 
 
 KW = {"merge_strategy": "create_unique"}
@@ -223,6 +250,8 @@ def run(case):
                     continue
             d = call(node, {"op": "dump", "h": "v%d" % vi})
             got = _strip(d["dump"])
+            if case.get("noise") and inner not in TEXT_FORMS:
+                got = dict(got, directives=ref["directives"])  # Feature-object forms carry no directive lines
             if got != ref:
                 what = [k for k in ref if got[k] != ref[k]]
                 V.append(viol("C13.forms", "%s form (checklines=%d) gives a database different from the path form in %s: %d vs %d features" % (
@@ -231,7 +260,7 @@ def run(case):
 
         # ---- from_string specifics: the temporary copy of the text (its name, its lifetime, how it is written)
         sx = case.get("string_extras") or {}
-        text = G.render_text(feats, _d(case))
+        text = _noisy(G.render_text(feats, _d(case)), case.get("noise"))
         if not V and ref is not None and sx.get("short_writes"):
             # (buggify) every os.write() on a file in the world is a legal short write
             r = call(node, {"op": "create", "h": "sw", "db": "sw.db", "data": {"form": "string", "text": text}, "transform": tr,
